@@ -166,6 +166,9 @@ func c10Ops() []c10Op {
 		{Name: "PutBucketVersioning-Suspended", Kind: "versioning", Build: func(vid string, m map[string]string) *gw.Req {
 			return NewReq("PUT", "/"+c10Bucket, "versioning", nil, []byte("<VersioningConfiguration><Status>Suspended</Status></VersioningConfiguration>"))
 		}},
+		{Name: "PutBucketVersioning-without-Status", Kind: "versioning", Build: func(vid string, m map[string]string) *gw.Req {
+			return NewReq("PUT", "/"+c10Bucket, "versioning", nil, []byte("<VersioningConfiguration><MfaDelete>Disabled</MfaDelete></VersioningConfiguration>"))
+		}},
 		{Name: "PutBucketPolicy-grant-bypass-to-everyone", Kind: "policy", Build: func(vid string, m map[string]string) *gw.Req {
 			return NewReq("PUT", "/"+c10Bucket, "policy", nil, []byte(fmt.Sprintf(`{"Statement":[{"Effect":"Allow","Principal":"*","Action":"s3:*","Resource":["arn:aws:s3:::%s","arn:aws:s3:::%s/*"]}]}`, c10Bucket, c10Bucket)))
 		}},
@@ -298,7 +301,7 @@ func C10(r *ck.Run) {
 				continue
 			}
 			switch n {
-			case "PutObjectRetention-shorten-governance", "PutObjectLegalHold-OFF", "PutObjectLockConfiguration-drop-default", "PutObjectLockConfiguration-without-ObjectLockEnabled", "PutBucketVersioning-Suspended",
+			case "PutObjectRetention-shorten-governance", "PutObjectLegalHold-OFF", "PutObjectLockConfiguration-drop-default", "PutObjectLockConfiguration-without-ObjectLockEnabled", "PutBucketVersioning-Suspended", "PutBucketVersioning-without-Status",
 				"PutBucketPolicy-grant-bypass-to-everyone", "DeleteObject-by-version", "PutObject", "DeleteObjects-by-key":
 				tiny = append(tiny, s)
 			}
